@@ -3,15 +3,29 @@
 
   Model: MvModel/Lock.lean (flock table keyed by open file description, directory, handles as
   system-call-granular state machines, arbitrary interleaving of any number of handles).
-  The OS assumptions A1–A6 are stated in that file's header.
+  The OS assumptions A1–A6 are stated in that file's header.  `Proto.current` is the protocol of the
+  code as it is; `Proto.swapOnly` / `Proto.repaired` are second model definitions (a half repair and
+  the repair of /verif/fixes/C17-not-applicable.diff, not applied because an existing test of the
+  repository encodes the defective behaviour).
 
-  `C17_full pr` is the property for protocol `pr`.  It is FALSE for the protocol of the code before
-  the repair (`Proto.current`: commit leaves the flock on the replaced, unlinked inode) and FALSE
-  for the half repair `Proto.swapOnly` (lock moved at commit, but an opener that obtained its
-  descriptor before the rename is then granted the freed lock of the unlinked inode);
-  it is PROVED for `Proto.repaired` (= /verif/fixes/C17.diff) by induction over traces.
+  PART I — theorems about the CURRENT code
+    C17_full pr                        the property for protocol `pr` (every reachable state, any interleaving)
+    C17_counterexample                 ¬ C17_full .current   (create; put; commit; second open succeeds)
+    C17_inv_partial                    what does hold, for unbounded handles and steps: the flock table is
+                                       consistent, every writable handle keeps an exclusive flock on the
+                                       inode it OPENED for its whole lifetime, so two live writers never
+                                       share a lock inode, and per path at most one writer is "anchored"
+                                       (its lock inode is the inode the path names)
+    C17_partial_exclusion              an anchored writer excludes everyone: probe refused, open / create /
+                                       try_open fail
+    C17_partial_until_first_rename     in every trace without a rename step (no commit has replaced a file
+                                       yet) the full property holds
+  PART II — theorems about the REPAIR (second model definition; show the repair is sound and that
+  half of it is not)
+    C17_repaired_inv, C17_repaired, C17_counterexample_swap_only
 -/
 import MvProps.C17Steps
+import MvProps.C17Cur
 namespace Mv.Lock
 
 /-- The property in one state: (1) per path at most one live writable handle, (2) every writable
@@ -39,9 +53,10 @@ theorem Inv.oneWriter {s : State} (inv : Inv s) : OneWriter s := by
   simp only [hp] at ok
   exact ok
 
-/-- C17_inv: the repaired protocol keeps the one-writer invariant in every reachable state
-    (unbounded number of processes, handles and steps). -/
-theorem C17_inv : C17_full .repaired := fun t => (run_inv init_inv t).oneWriter
+/-- PART II.  C17_repaired_inv: the REPAIRED protocol (second model definition, not the code as it
+    is) keeps the one-writer invariant in every reachable state (unbounded number of processes,
+    handles and steps). -/
+theorem C17_repaired_inv : C17_full .repaired := fun t => (run_inv init_inv t).oneWriter
 
 theorem isWriter_iff {s : State} {a p : Nat} :
     isWriter s a p = true ↔ ∃ h, s.hnd a = some h ∧ h.phase.writer = true ∧ h.path = p := by
@@ -59,9 +74,9 @@ theorem OneWriter.unique {s : State} (ow : OneWriter s) {a b p : Nat}
 def witnessUnfixed : List Step :=
   .mkfile 7 :: openSteps 0 7 ++ [.put 0] ++ commitSteps 0 ++ openSteps 1 7
 
-/-- The code before the repair: after its first commit the writer's flock is on the unlinked old
+/-- PART I.  The code as it is: after its first commit the writer's flock is on the unlinked old
     inode, and a second `Memvid::open` of the path succeeds while the first handle is alive. -/
-theorem C17_counterexample_unfixed : ¬ C17_full .current := by
+theorem C17_counterexample : ¬ C17_full .current := by
   intro h
   have h0 : isWriter (run .current init witnessUnfixed) 0 7 = true := by decide
   have h1 : isWriter (run .current init witnessUnfixed) 1 7 = true := by decide
@@ -123,13 +138,14 @@ theorem apiTryOpen_refused (pr : Proto) {s : State} {b p i : Nat} (hb : s.hnd b 
     (apiTryOpen pr s b p).2 = false := by
   simp [apiTryOpen, tryOpenSteps, run, step, hb, hd, updHnd, hng, settleOpen, opened]
 
-/-- C17: while a writable handle `a` for path `p` is alive (whatever it has done: puts, commits,
+/-- PART II.  C17_repaired (about the REPAIRED protocol, not the code as it is):
+    while a writable handle `a` for path `p` is alive (whatever it has done: puts, commits,
     vacuum, aborted commits, and whatever anyone else has done),
     (1) a non-blocking exclusive flock on a fresh descriptor of the path is refused,
     (2) `Memvid::open`, `Memvid::create` and doctor's `try_open` of the path by anyone else fail,
     (3) under any further interleaving `t'`, in every state in which `a` is still a writable handle
         for `p` no other handle is one. -/
-theorem C17 (t : List Step) (a p : Nat) (hw : isWriter (run .repaired init t) a p = true) :
+theorem C17_repaired (t : List Step) (a p : Nat) (hw : isWriter (run .repaired init t) a p = true) :
     let s := run .repaired init t
     probeEx s p = some false ∧
     (∀ b, s.hnd b = none →
@@ -164,7 +180,7 @@ theorem C17 (t : List Step) (a p : Nat) (hw : isWriter (run .repaired init t) a 
     · rfl
     · exact absurd (inv'.oneWriter.unique hwb hwa) hba
 
-/-- non-vacuity of C17's hypothesis: a handle that created the file, wrote and committed twice is a
+/-- non-vacuity of C17_repaired's hypothesis: a handle that created the file, wrote and committed twice is a
     writer of its path, and the lock probe of that state is refused -/
 example : isWriter (run .repaired init
     (.mkfile 7 :: openSteps 0 7 ++ [.put 0] ++ commitSteps 0 ++ [.put 0] ++ commitSteps 0)) 0 7 = true := by
@@ -177,5 +193,113 @@ example : (apiOpen .repaired (run .repaired init
 /-- in the unrepaired protocol the probe of the same history is GRANTED (the harness' fast oracle) -/
 example : probeEx (run .current init (.mkfile 7 :: openSteps 0 7 ++ [.put 0] ++ commitSteps 0)) 7
     = some true := by decide
+
+-- ------------------------------------------------------------------ PART I: what holds for the current code
+/-- the handle's lock inode is the inode its path names now -/
+def anchored (s : State) (h : Handle) : Prop := s.dir h.path = some h.lockIno
+
+/-- C17_inv_partial (current code, every reachable state, any number of handles and steps):
+    (1) the flock table is consistent (A2 as an invariant),
+    (2) every live writable handle holds an exclusive flock, through its own `Memvid.lock`
+        description, on the inode it opened — the lock DOES hold for the handle's lifetime, but on
+        the inode, not on the path,
+    (3) two live writable handles never have the same lock inode,
+    (4) per path at most one live writable handle is anchored. -/
+theorem C17_inv_partial (t : List Step) :
+    let s := run .current init t
+    Compat s.locks ∧
+    (∀ a ha, s.hnd a = some ha → ha.phase.writer = true →
+      ⟨a, ha.lockSer, ha.lockIno, .ex⟩ ∈ s.locks) ∧
+    (∀ a b ha hb, s.hnd a = some ha → s.hnd b = some hb → ha.phase.writer = true →
+      hb.phase.writer = true → a ≠ b → ha.lockIno ≠ hb.lockIno) ∧
+    (∀ a b ha hb, s.hnd a = some ha → s.hnd b = some hb → ha.phase.writer = true →
+      hb.phase.writer = true → ha.path = hb.path → anchored s ha → anchored s hb → a = b) := by
+  intro s
+  have inv : InvC s := runC_inv init_invC t
+  refine ⟨inv.compat, fun a ha h1 w => (inv.hOk a ha h1).writerLock w,
+    fun a b ha hb h1 h2 w1 w2 hne => inv.lockInoDistinct h1 h2 w1 w2 hne, ?_⟩
+  intro a b ha hb h1 h2 w1 w2 hp an1 an2
+  by_cases hab : a = b
+  · exact hab
+  · have hd := inv.lockInoDistinct h1 h2 w1 w2 hab
+    unfold anchored at an1 an2
+    rw [hp, an2] at an1
+    exact absurd (Option.some.inj an1).symm hd
+
+/-- C17_partial_exclusion (current code): while an ANCHORED writable handle `a` for path `p` is
+    alive, a flock probe of the path is refused and `Memvid::open`, `create` and `try_open` of the
+    path by anyone else fail. -/
+theorem C17_partial_exclusion (t : List Step) (a p : Nat) (ha : Handle)
+    (h1 : (run .current init t).hnd a = some ha) (w : ha.phase.writer = true) (hp : ha.path = p)
+    (an : anchored (run .current init t) ha) :
+    let s := run .current init t
+    probeEx s p = some false ∧
+    ∀ b, s.hnd b = none →
+      (apiOpen .current s b p).2 = false ∧ (apiCreate .current s b p).2 = false ∧
+      (apiTryOpen .current s b p).2 = false := by
+  intro s
+  have inv : InvC s := runC_inv init_invC t
+  have he := (inv.hOk a ha h1).writerLock w
+  unfold anchored at an
+  rw [hp] at an
+  refine ⟨?_, ?_⟩
+  · have an' : s.dir p = some ha.lockIno := an
+    have hall : (s.locks.all fun e' => e'.ino != ha.lockIno) = false := by
+      cases hall : s.locks.all fun e' => e'.ino != ha.lockIno
+      · rfl
+      · have := (List.all_eq_true.mp hall) _ he
+        simp at this
+    simp only [probeEx, an', Option.map_some, hall]
+  · intro b hb
+    have hne : a ≠ b := by
+      intro hc
+      rw [hc] at h1
+      rw [hb] at h1
+      cases h1
+    exact ⟨apiOpen_refused _ hb an (not_grantable he hne rfl rfl),
+      apiCreate_refused _ hb an (not_grantable he hne rfl rfl),
+      apiTryOpen_refused _ hb an (not_grantable he hne rfl rfl)⟩
+
+/-- C17_partial_until_first_rename (current code): in every trace in which no rename step occurs
+    (no commit has replaced a file yet — puts, opens, failed or aborted commits and drops in any
+    interleaving are allowed) the FULL property holds. -/
+theorem C17_partial_until_first_rename (t : List Step) (ht : ∀ st ∈ t, st.isRename = false) :
+    OneWriter (run .current init t) := by
+  have inv : InvC (run .current init t) := runC_inv init_invC t
+  have nr : NR (run .current init t) := runNR init_NR t ht
+  have wr : ∀ {a : Nat} {h : Handle}, (run .current init t).hnd a = some h → h.phase.writer = true →
+      h.phase ≠ .opening := by
+    intro a h _ w hc
+    rw [hc] at w
+    simp [Phase.writer] at w
+  refine ⟨?_, ?_, ?_⟩
+  · intro a b ha hb h1 h2 w1 w2 hp
+    by_cases hab : a = b
+    · exact hab
+    · obtain ⟨d1, l1, _⟩ := nr a ha h1
+      obtain ⟨d2, l2, _⟩ := nr b hb h2
+      have := inv.lockInoDistinct h1 h2 w1 w2 hab
+      rw [l1 (wr h1 w1), l2 (wr h2 w2)] at this
+      rw [hp, d2] at d1
+      exact absurd (Option.some.inj d1).symm this
+  · intro a ha h1 w
+    obtain ⟨d1, l1, _⟩ := nr a ha h1
+    refine ⟨_, (inv.hOk a ha h1).writerLock w, rfl, rfl, ?_⟩
+    rw [d1, l1 (wr h1 w)]
+  · intro a ha h1 hp
+    obtain ⟨d1, l1, _⟩ := nr a ha h1
+    have w : ha.phase.writer = true := by rw [hp]; rfl
+    refine ⟨(inv.hOk a ha h1).writerLock w, ?_, (l1 (wr h1 w)).symm⟩
+    rw [d1, l1 (wr h1 w)]
+
+/-- non-vacuity: the handle that created the file and wrote to it is an anchored writer before its
+    first commit, and no longer anchored after it -/
+example : (∃ h, (run .current init (.mkfile 7 :: openSteps 0 7 ++ [.put 0])).hnd 0 = some h ∧
+    h.phase.writer = true ∧ (run .current init (.mkfile 7 :: openSteps 0 7 ++ [.put 0])).dir h.path = some h.lockIno) :=
+  ⟨_, rfl, by decide, by decide⟩
+example : (∃ h, (run .current init (.mkfile 7 :: openSteps 0 7 ++ [.put 0] ++ commitSteps 0)).hnd 0 = some h ∧
+    h.phase.writer = true ∧
+    (run .current init (.mkfile 7 :: openSteps 0 7 ++ [.put 0] ++ commitSteps 0)).dir h.path ≠ some h.lockIno) :=
+  ⟨_, rfl, by decide, by decide⟩
 
 end Mv.Lock
